@@ -123,6 +123,9 @@ func RunWorker(c *Check, tier string, shard, nshards int, seed int64, budget tim
 			s = 1
 		}
 		pb := time.Duration(float64(budget)*s/total) + carry
+		if pb < 0 {
+			pb = 0
+		}
 		pr := PhaseResult{Name: p.Name, Space: p.Space}
 		w.cur = &pr
 		w.outcomes = map[uint64]struct{}{}
@@ -150,11 +153,8 @@ func RunWorker(c *Check, tier string, shard, nshards int, seed int64, budget tim
 		}
 		used := time.Since(w.start)
 		pr.WallS = used.Seconds()
-		if used < pb {
-			carry = pb - used // unused time rolls over to later phases
-		} else {
-			carry = 0
-		}
+		// unused time rolls over to later phases; an overshoot (a phase whose single step is slow) is taken from them
+		carry = pb - used
 		for h := range w.outcomes {
 			pr.Outcomes = append(pr.Outcomes, h)
 		}
